@@ -3010,8 +3010,9 @@ class Tree:
         if self.num_roots != 1 or other.num_roots != 1:
             raise ValueError("Trees must have a single root")
 
-        s1 = set(self._get_sample_sets().values())
-        s2 = set(other._get_sample_sets().values())
+        # Subtrees without samples define no bipartition of the samples
+        s1 = {s for s in self._get_sample_sets().values() if len(s) > 0}
+        s2 = {s for s in other._get_sample_sets().values() if len(s) > 0}
 
         return len(s1.symmetric_difference(s2))
 
